@@ -126,7 +126,7 @@ def sigv4_spec(me, method, enc_path, canon_query, payload_hash, now, extra=()):
     scope = z3.Concat(date, S('/'), region, S('/'), S('s3'), S('/'), S('aws4_request'))
     sts = z3.Concat(S('AWS4-HMAC-SHA256'), S('\n'), amzdate, S('\n'), scope, S('\n'), SHA256HEX(enc(creq)))
     k = HMAC(HMAC(HMAC(HMAC(z3.Concat(enc(S('AWS4')) if False else bytes_lit('AWS4'), enc(secret)), enc(date)), enc(region)),
-                  enc(S('s3'))), bytes_lit('aws4_request'))
+                  bytes_lit('s3')), bytes_lit('aws4_request'))
     sig = hexf(HMAC(k, enc(sts)))
     auth = z3.Concat(S('AWS4-HMAC-SHA256 Credential='), key_id, S('/'), scope, S(', SignedHeaders='), signed, S(', Signature='), sig)
     return auth, amzdate
